@@ -265,6 +265,10 @@ fn cfg_text(c: &SCfg, paths: &[PathBuf], x11: bool) -> String {
     let mut s = String::new();
     if x11 {
         s.push_str("(defcfg linux-x11-repeat-delay-rate 400,50)\n");
+    } else if c.id % 2 == 0 {
+        // aims at the bus-type argument `Kanata::new` hands to `KbdOut::new` (the USB arm); the
+        // option has no other effect, in particular none on a reload
+        s.push_str("(defcfg linux-output-device-bus-type USB)\n");
     }
     s.push_str("(defsrc");
     for k in DEFSRC {
